@@ -48,8 +48,10 @@ func vh_C11_server_nextHandle() {
 	svr := vNewServer(false, "")
 	fs := vTable(svr)
 	before := len(svr.openFiles)
+	issued := svr.handleCount // every handle issued so far, open or closed, is a number <= this
 	nf := &vMFile{name: "/new"}
 	h := svr.nextHandle(nf)
+	vAssert(svr.handleCount == issued+1, "the new handle is larger than every handle issued before, also the closed ones (added after seeded change C11-c)")
 	vAssert(len(svr.openFiles) == before+1, "new handle does not collide with an open one")
 	got, ok := svr.getHandle(h)
 	vAssert(ok && got == file(nf), "new handle names the new file")
@@ -219,7 +221,9 @@ func vh_C11_rs_next_close() {
 	objs := vRSTable(rs)
 	before := len(rs.openRequests)
 	nr := &Request{Filepath: "/n"}
+	issued := rs.handleCount
 	h := rs.nextRequest(nr)
+	vAssert(rs.handleCount == issued+1, "the new handle is larger than every handle issued before, also the closed ones")
 	vAssert(len(rs.openRequests) == before+1 && h == strconv.Itoa(rs.handleCount) && nr.handle == h, "new handle is fresh and is the incremented counter")
 	x := vNondetStringC(2)
 	target, was := rs.openRequests[x]
